@@ -1,7 +1,7 @@
 SPECIFICATION Spec
 CONSTANTS
   Writes = "none"
-  FullMasks = FALSE
+  FullMasks = TRUE
 INVARIANT FrameObserved
 INVARIANT ProgramsWellFormed
 INVARIANT Complete
